@@ -207,9 +207,9 @@ class LogicDense(torch.nn.Module):
                     raise ValueError(self.forward_sampling)
                 x = bin_op_s(a, b, x)
             else:
-                weights = torch.nn.functional.one_hot(self.weight.argmax(-1), 16).to(
-                    torch.float32
-                )
+                # in the dtype of the logits, like the training weights (and the convolutions): a converted layer hands the next
+                # layer the dtype it expects
+                weights = torch.nn.functional.one_hot(self.weight.argmax(-1), 16).to(self.weight.dtype)
                 x = bin_op_s(a, b, weights)
         elif self.parametrization == "walsh":
             # in the dtype of the coefficients: 2 * a - 1 wraps around for unsigned integer inputs
